@@ -264,6 +264,10 @@ func c12Gen(c *vfCtx, emit func(c12Case)) {
 			}
 		}
 	}
+	// one shared helper in a non-test file, reached from two different test files, in both orders, through Configs without a Filename
+	for _, order := range []string{"c12,common", "common,c12", "c12,common,c12", "common,common,c12"} {
+		emit(c12Case{Kind: "callers", OptSet: "none", Seq: strings.Split(order, ",")})
+	}
 	// concurrent use of ONE Config: every pair (and, thorough, triple) of entry points, every schedule
 	bound := 2
 	for _, os := range []string{"none", "filename", "all"} {
@@ -410,7 +414,54 @@ func c12Pair(c *vfCtx, cs c12Case) {
 	}
 }
 
+// c12Callers: where a call without a Filename option stores depends on the test file it is made from, never on who used
+// the same helper before.
+func c12Callers(c *vfCtx, cs c12Case) {
+	c.addSet("nontrivial", vfHashJSON(cs))
+	dir := c.newWorld()
+	vfResetState(false, "", true)
+	cfg := WithConfig(Dir(dir))
+	want := map[string][]string{}
+	for i, from := range cs.Seq {
+		t := &vfT{name: fmt.Sprintf("TestFrom_%s_%d", from, i)}
+		if from == "c12" {
+			vfNonTestMatch(cfg, t, fmt.Sprintf("value %d", i))
+		} else {
+			vfViaCommon(cfg, t, fmt.Sprintf("value %d", i))
+		}
+		t.end()
+		c.count("transitions", 1)
+		f := "zz_verif_" + from + "_test.snap"
+		want[f] = append(want[f], t.name+" - 1")
+		if len(t.errs) > 0 {
+			c.violation("", fmt.Sprintf("helper call %d from %s failed: %v", i+1, from, t.errs), cs)
+			return
+		}
+	}
+	obs := vfSnapDir(dir)
+	c.addSet("states", vfHash(fmt.Sprint(vfHashDir(obs))))
+	for f, ids := range want {
+		es, err := vfParse(obs[f].Data)
+		var got []string
+		for _, e := range es {
+			got = append(got, e.ID)
+		}
+		if err != nil || vfStrs(got) != vfStrs(ids) {
+			var files []string
+			for n := range obs {
+				files = append(files, n)
+			}
+			c.violation("", fmt.Sprintf("calls made through one non-test helper from the test files %v: %s should hold %v, it holds %v (%v); files: %v", cs.Seq, f, ids, got, err, vfSorted(files)), cs)
+			return
+		}
+	}
+}
+
 func c12Run(c *vfCtx, cs c12Case) {
+	if cs.Kind == "callers" {
+		c12Callers(c, cs)
+		return
+	}
 	if cs.Kind == "conc" {
 		c12Conc(c, cs)
 		return
